@@ -80,6 +80,11 @@ def build(case):
                 ps.append(offs[tgt[0]][tgt[1]])
             ops.append(D.SsbOperation(offs[r_i][i], D.SsbOpCode(-1, name), ps))
         rops.append(ops)
+    if case.get("name_table"):
+        # callers hand the decompilers the game's whole table of common-routine names (id -> name), not only the
+        # names of the coroutines of this file: the table also has entries under the ids of ordinary routines
+        have = {c.id for c in coros}
+        coros += [D.SsbCoroutine(r_i, f"COMMON_{r_i}") for r_i in range(len(case["routines"]) + 2) if r_i not in have]
     return infos, rops, coros
 
 
@@ -474,7 +479,7 @@ def free_graphs(draw, max_routines=3, max_ops=12):
     g = SG(draw)
     rs = g.routines(max_routines, max_ops)
     gaps = draw(st.lists(st.integers(0, 3), min_size=1, max_size=6))
-    return {"stratum": 3, "routines": rs, "gaps": gaps, "first_offset": draw(st.integers(0, 5))}
+    return {"stratum": 3, "routines": rs, "gaps": gaps, "first_offset": draw(st.integers(0, 5)), "name_table": draw(st.booleans())}
 
 
 @st.composite
@@ -523,7 +528,7 @@ def ssbscript_domain(draw):
                     op[2] = None
                     op[0] = "x"
     gaps = draw(st.lists(st.integers(0, 3), min_size=1, max_size=6))
-    return {"stratum": 4, "routines": rs, "gaps": gaps, "first_offset": draw(st.integers(0, 5))}
+    return {"stratum": 4, "routines": rs, "gaps": gaps, "first_offset": draw(st.integers(0, 5)), "name_table": draw(st.booleans())}
 
 
 def describe(case) -> str:
